@@ -47,6 +47,110 @@ def counter_of(arg):
     return None
 
 
+
+# ---- R-race: interleaved product of the counter operations (upv.conc) ----------------------
+
+def _race_job(job):
+    """one configuration: n threads, each holding one reference, doing k use/release pairs then its final release"""
+    import time
+    from upv import conc
+    from upv.absint import Finding, Undecided
+    from rules import c07
+    repo, kind, progs = job
+    prog = c07._prog(repo)
+    H = prog.hdr
+    R = ('obj', 'rc')
+    t0 = time.time()
+
+    class M(conc.RingMachine):
+        INTERP_PREFIX = ('urefcount_', 'ubuf_mem_shared_')
+        SHARED_PLAIN = (('urefcount', 'cb'),)
+        CALLBACKS = {('cb', 'dtor'): 'dtor'}
+    n = len(progs)
+    name = '%s:%s' % (kind, '|'.join(progs))
+    res = {'name': name, 'status': HOLDS}
+    try:
+        sh = conc.Shared(0)
+        m = M(prog, H, sh)
+        if kind == 'urefcount':
+            use, rel = 'urefcount_use', 'urefcount_release'
+            m.run_ops([('urefcount_init', [R, ('cb', 'dtor')])] + [(use, [R])] * (n - 1))
+            cell = ('addr', 'field', R, 'urefcount', 'refcount')
+        else:
+            use, rel = 'ubuf_mem_shared_use', 'ubuf_mem_shared_release'
+            cell = ('addr', 'field', R, 'ubuf_mem_shared', 'refcount')
+            sh.cells[cell] = n
+        if sh.cells.get(cell) != n:
+            raise Undecided('set-up: counter is %r, expected %d' % (sh.cells.get(cell), n))
+        threads = [[{'U': (use, [R]), 'R': (rel, [R])}[c] for c in p] for p in progs]
+        ex = conc.Explorer(prog, H, sh, threads, machine_cls=M, max_states=300000)
+        bad = []
+
+        def done(infos, fm, shf):
+            if bad:
+                return
+            ndt = shf.cells.get(('event', 'dtor'), 0)
+            final_start = [inf.results[-1][2] for inf in infos]          # first access of each thread's last operation
+            if kind == 'urefcount':
+                if ndt != 1:
+                    bad.append('the destructor runs %d times after every reference was released (final counter %r)' % (ndt, shf.cells.get(cell)))
+                    return
+                tdt = [a[0] for inf in infos for a in inf.machine.log if a[2] == 'event']
+                if tdt and any(fs is None or tdt[0] < fs for fs in final_start):
+                    bad.append('the destructor runs before a holder has started its final release')
+            else:
+                trues = [(t, inf.results[-1]) for t, inf in enumerate(infos) if inf.results[-1][1] == 1]
+                if len(trues) != 1:
+                    bad.append('%d holders are told they were the last one (final counter %r): the area is returned %s' % (
+                        len(trues), shf.cells.get(cell), 'never' if not trues else 'more than once'))
+                    return
+                # the elected holder's decrement is the last decrement of all
+                t_el = trues[0][1][3]
+                others = [inf.results[-1][2] for t, inf in enumerate(infos) if t != trues[0][0]]
+                if any(o is None or o > t_el for o in others):
+                    bad.append('a holder is told it was the last one while another holder has not yet released')
+            if not bad and shf.cells.get(cell) != 0:
+                bad.append('final counter is %r, expected 0' % shf.cells.get(cell))
+        ex.explore(done)
+        res.update(states=ex.states, transitions=ex.transitions, executions=ex.executions)
+        if bad:
+            res['status'] = VIOLATED
+            res['what'] = 'under some interleaving of %s: %s' % (' | '.join(progs), bad[0])
+    except Finding as f:
+        res['status'] = VIOLATED
+        res['what'] = 'under some interleaving: %s' % f
+    except Undecided as u:
+        res['status'] = UNDECIDED
+        res['why'] = str(u)
+    res['wall'] = round(time.time() - t0, 2)
+    return res
+
+
+def check_race(rep, repo, tier):
+    import multiprocessing
+    import os
+    rep.rule('R-race', 'interleaved product of the CFGs of urefcount_use / urefcount_release (resp. ubuf_mem_shared_use / _release) and of the uatomic_* '
+             'functions they call, down to the __atomic builtins: n threads each hold one reference and run use / release pairs (U R) followed by their '
+             'final release (R); every access to the counter word or to urefcount.cb is a scheduling point; in every terminal state the destructor has run '
+             'exactly once (exactly one holder was told it is the last), not before every holder had started its final release, and the counter is 0')
+    progs = [('R', 'R'), ('UR' + 'R', 'R'), ('URR', 'URR'), ('R', 'R', 'R'), ('URR', 'R', 'R')]
+    if tier == 'thorough':
+        progs += [('URURR', 'URR'), ('URR', 'URR', 'R'), ('URR', 'URR', 'URR'), ('R', 'R', 'R', 'R')]
+    jobs = [(repo, kind, p) for kind in ('urefcount', 'ubuf_mem_shared') for p in progs]
+    from rules import c07
+    c07._prog(repo)        # extract once, before the workers are forked
+    with multiprocessing.Pool(min(16, os.cpu_count() or 4)) as pool:
+        out = pool.map(_race_job, jobs, chunksize=1)
+    tot = {'states': 0, 'transitions': 0, 'executions': 0}
+    for r in out:
+        for k in tot:
+            tot[k] += r.get(k, 0)
+        rep.add('R-race', r['name'], r['status'], 'include/upipe/urefcount.h' if r['name'].startswith('urefcount') else 'include/upipe/ubuf_mem_common.h',
+                **{k: r[k] for k in ('what', 'why', 'states', 'executions', 'wall') if k in r})
+    rep.tables['R-race'] = dict(tot, configurations=len(out))
+    rep.extra_cov = {'states': tot['states'], 'transitions': tot['transitions']}
+
+
 def run(tier='quick', repo=None):
     repo = repo or facts.REPO
     rep = Report(PROP, tier)
@@ -159,6 +263,7 @@ def run(tier='quick', repo=None):
         rep.add('R-atomic', inst, VIOLATED, '%s:%s' % (fn.file, n.get('l')),
                 what='object of type %s accessed directly (not through uatomic_*)' % n.get('t'))
     rep.add('R-atomic', 'all-units', HOLDS if not bad else VIOLATED, None, occurrences=nocc, **({} if not bad else {'what': '%d direct accesses' % len(bad)}))
+    check_race(rep, repo, tier)
     rep.assumptions = ['the HAVE_ATOMIC_OPS branch of uatomic.h is the one compiled (config.h of the tree)',
                        'callers respect "a release matches an acquisition made while holding a reference" (not decided)']
     return rep
